@@ -86,9 +86,9 @@ func init() {
 	})
 	register(&Property{
 		ID:          "C24",
-		Explanation: "RL (both halves): parser.Clone's copy sets every field of parser.result with fresh or listed-immutable values, the original proto escapes only through proto.Clone, and the set of node-index key kinds written by parser/result.go equals the set re-created by parser/clone.go.",
+		Explanation: "RL (both halves): parser.Clone's copy sets every field of parser.result with fresh or listed-immutable values, the original proto escapes only through proto.Clone, and the set of node-index key kinds written by parser/result.go equals the set re-created by parser/clone.go. RL3 also forbids append onto a repeated field of a descriptor proto in the index re-creation. RL5: no function of parser/clone.go refers to a mutable package-level variable.",
 		NotDecided:  "deep equality of the cloned proto (delegated to proto.Clone)",
-		Rules:       []func(*World){rlClone, rnClone, rl3CloneReadOnly},
+		Rules:       []func(*World){rlClone, rnClone, rl3CloneReadOnly, rl5CloneNoSharedState},
 	})
 	register(&Property{
 		ID:          "C18",
@@ -98,9 +98,9 @@ func init() {
 	})
 	register(&Property{
 		ID:          "C19",
-		Explanation: "RK: a successful lookup through a non-public import of a linker result marks that import used before returning. RH9: usedImports is written only by markUsed, which is called only from the shared visibility walk. RC9: CheckForUnusedImports runs only after Link, InterpretOptions and ValidateOptions, and only on the explicitFile branch. RC10: all requested files are registered with explicitFile = true inside one executor.mu critical section. RB2: no binary search over input-ordered slices (public_dependency etc.) in the linker.",
+		Explanation: "RK: a successful lookup through a non-public import of a linker result marks that import used before returning. RH9: usedImports is written only by markUsed, which is called only from the shared visibility walk. RC9: CheckForUnusedImports runs only after Link, InterpretOptions and ValidateOptions, and only on the explicitFile branch. RC10: all requested files are registered with explicitFile = true inside one executor.mu critical section. RB2: no binary search over input-ordered slices (public_dependency etc.) in the linker. RK4: public_dependency / weak_dependency are consumed as sets (range, len, slices.Contains), never indexed or re-sliced, also not through an alias.",
 		NotDecided:  "the converse (a marked import may still be removable)",
-		Rules:       []func(*World){rkResolvers, rh9UsedImports, rcLink, rc10ExplicitRegistration, rb2SortedAssumptions, raCompiler},
+		Rules:       []func(*World){rkResolvers, rh9UsedImports, rcLink, rc10ExplicitRegistration, rb2SortedAssumptions, rk4IndexListsAsSets, raCompiler},
 	})
 	register(&Property{
 		ID:          "C17",
@@ -125,6 +125,12 @@ func init() {
 		Explanation: "RY: the inline alphabet literal has 64 distinct bytes with sextet 63 = '.', maxInlined*6 < 32; encodeOutlined is reached only on the false edges of len(s) > maxInlined and strings.HasSuffix(s, \".\"); every field of intern.Table is a sync/atomic/syncx type and all methods have pointer receivers; in internSlow the log append precedes the id store and the poison store precedes the panic; writer and reader use the same id offset.",
 		NotDecided:  "correctness of the lock-free syncx.Log itself",
 		Rules:       []func(*World){ryIntern},
+	})
+	register(&Property{
+		ID:          "C39",
+		Explanation: "Three structural clauses of the decimal → binary64 conversion in internal/decimal. RDC1: the power-of-five helper (pow5) is evaluated on its whole finite domain from its own source — for every exponent a case admits, the table indexes are in range and the exact product of the table constants it combines is 5^n. RDC3: for every exponent for which Float64's fast path reaches the helper (path condition evaluated over -400..400, unknown boolean atoms enumerated, predicate methods inlined) the helper performs at most one inexact step (an IEEE multiplication/division by a value other than 1, or a table constant that is not exactly representable), which is the condition under which the fast path is correctly rounded. RDC2: typestate of the exactness flag — no return reports `exact` for a value produced by a rounding-capable step after the flag was last assigned.",
+		NotDecided:  "correct rounding of the slow path (strconv.ParseFloat is trusted), the bigx arithmetic, the numeral parser, Ldexp underflow into the subnormal range; the rules decide necessary conditions of correct rounding, not the numerical result",
+		Rules:       []func(*World){rdcDecimal},
 	})
 	register(&Property{
 		ID:          "C32",
@@ -152,15 +158,15 @@ func init() {
 	})
 	register(&Property{
 		ID:          "C22",
-		Explanation: "RN: the strip traversal (call tree of StripSourceRetentionOptionsFromFile) follows all 12 containment edges and touches all 9 options kinds. RN2: the option filter must descend into message-valued option fields (any depth: known finding today); no assignment in source_retention_options.go goes through a pointer/slice parameter (input not modified); every stripped child list is stored back on the rebuilt copy; the source-path tag used for each child list names the same field (tags.<Kind>_<Field>).",
+		Explanation: "RN: the strip traversal (call tree of StripSourceRetentionOptionsFromFile) follows all 12 containment edges and touches all 9 options kinds. RN2: the option filter must descend into message-valued option fields (any depth: known finding today); no assignment in source_retention_options.go goes through a pointer/slice parameter (input not modified); every stripped child list is stored back on the rebuilt copy; the source-path tag used for each child list names the same field (tags.<Kind>_<Field>). RN7: every field-identity site of the strip (map index, slices.Contains needle derived from a FieldDescriptor) keys by the descriptor, Number() or FullName(), never by Index()/Name()/JSONName()/TextName() (scope-relative for extensions).",
 		NotDecided:  "exactness of the removed source-info paths beyond tag agreement; idempotence",
-		Rules:       []func(*World){rnStrip},
+		Rules:       []func(*World){rnStrip, rn7FieldIdentity},
 	})
 	register(&Property{
 		ID:          "C21",
-		Explanation: "RC7c: an option that fails in lenient/unlinked mode and is kept as uninterpreted leaves no trace in the accumulated options message — either (A) on every acyclic path of interpretOptions through the true edge of interp.lenientErrReported the message passed to interpretField is restored from a proto.Clone snapshot taken before the call (paths with interp.lenient false are pruned there, by RH8), or (B) interpretField/setOptionField never call anything lenience-fallible after modifying msg. RH8: interp.reporter.HandleError* is called only inside the three lenience-aware wrappers, each of which starts with `if lenienceEnabled { lenientErrReported = true; return nil }`; the flags are written only there and in enableLenience. RC7: every proto.Merge into a caller-visible message is preceded on all paths by proto.Reset of the same message (fresh local clones exempt), and in interpreter.interpretOptions no call executes after the caller's options message was first modified (all fallible work happens on the scratch message).",
+		Explanation: "RC7c: an option that fails in lenient/unlinked mode and is kept as uninterpreted leaves no trace in the accumulated options message — either (A) on every acyclic path of interpretOptions through the true edge of interp.lenientErrReported the message passed to interpretField is restored from a proto.Clone snapshot taken before the call (paths with interp.lenient false are pruned there, by RH8), or (B) interpretField/setOptionField never call anything lenience-fallible after modifying msg. RH8: interp.reporter.HandleError* is called only inside the three lenience-aware wrappers, each of which starts with `if lenienceEnabled { lenientErrReported = true; return nil }`; the flags are written only there and in enableLenience. RC7: every proto.Merge into a caller-visible message is preceded on all paths by proto.Reset of the same message (fresh local clones exempt), and in interpreter.interpretOptions no call executes after the caller's options message was first modified (all fallible work happens on the scratch message). RC7d: a removal helper that shifts its argument's backing array obliges every caller to store the result on all paths (none today: RemoveOption copies). RC7e: the shortened uninterpreted-option list is never stored into the options message on a path that can still exit through a lenience-aware error wrapper.",
 		NotDecided:  "equality of values across modes; partial population of the scratch message before a lenient error",
-		Rules:       []func(*World){rh8Lenience, rc7LenientCommit, rc7cPerOptionAtomicity, rc7dInPlaceRemoval},
+		Rules:       []func(*World){rh8Lenience, rc7LenientCommit, rc7cPerOptionAtomicity, rc7dInPlaceRemoval, rc7eCommitAfterChecks},
 	})
 	register(&Property{
 		ID:          "C23",
@@ -170,15 +176,15 @@ func init() {
 	})
 	register(&Property{
 		ID:          "C13",
-		Explanation: "RQ: for every readRune call in a protoLex method, assuming the returned rune is a newline, every path feasible under that assumption (branch conditions over the rune, constants and strings.ContainsRune are evaluated; others explored both ways) passes maybeNewLine(rune) or un-reads the rune (with the size of the same read) or is the read-failed path, before the next readRune or any return: every consumed newline reaches FileInfo's line table.",
+		Explanation: "RQ: for every readRune call in a protoLex method, assuming the returned rune is a newline, every path feasible under that assumption (branch conditions over the rune, constants and strings.ContainsRune are evaluated; others explored both ways) passes maybeNewLine(rune) or un-reads the rune (with the size of the same read) or is the read-failed path, before the next readRune or any return: every consumed newline reaches FileInfo's line table. RQ also rejects paths that register a newline and then push the same rune back (registered twice).",
 		NotDecided:  "column arithmetic (tab stops, multi-byte runes) and span ordering",
 		Rules:       []func(*World){rqNewlines, rq9ColumnArithmetic, rq11ReaderPositionOwner},
 	})
 	register(&Property{
 		ID:          "C12",
-		Explanation: "RQ (shared with C13): a position computed after an unregistered newline names a line/column that does not exist. RQ2: parser.Parse returns a nil AST only on the reader-error path, otherwise the returned AST is non-nil on every path (nil-check fallback dominates) and the error is exactly handler.Error(). RQ3: positions in the lexer are computed from reader offsets, never from len() of text re-encoded from runes (an invalid UTF-8 byte re-encodes to 3 bytes). RQ4: every AST field the error-tolerant grammar may leave nil (constructor parameters that receive a literal nil in the compiled actions, mapped to struct fields) is dereferenced in the AST→descriptor conversion only under a dominating nil test (including && / || short-circuit guards).",
+		Explanation: "RQ (shared with C13): a position computed after an unregistered newline names a line/column that does not exist. RQ2: parser.Parse returns a nil AST only on the reader-error path, otherwise the returned AST is non-nil on every path (nil-check fallback dominates) and the error is exactly handler.Error(). RQ3: positions in the lexer are computed from reader offsets, never from len() of text re-encoded from runes (an invalid UTF-8 byte re-encodes to 3 bytes). RQ4: every AST field the error-tolerant grammar may leave nil (constructor parameters that receive a literal nil in the compiled actions, mapped to struct fields) is dereferenced in the AST→descriptor conversion only under a dominating nil test (including && / || short-circuit guards). RQ (double registration): no path both registers a newline and pushes the same rune back. RQ12: (*protoLex).Lex returns a raw rune as the token code only for ASCII values — the guards on the path to each `return int(c)` are evaluated three-valued over a finite model of runes including the range goyacc numbers its named tokens in.",
 		NotDecided:  "panic-freedom of the generated parser and the AST constructors on arbitrary bytes; that converting the AST to a descriptor never panics",
-		Rules:       []func(*World){rqNewlines, rqParseShape, rq3ByteDistances, rq4NilableFields, rq5NilableGrammarValues, rq6TypedNilAccessors, rq7CtorNilContract, rq8NodeInfoGuards, rq10ConstIndexGuards, rq11ReaderPositionOwner},
+		Rules:       []func(*World){rqNewlines, rqParseShape, rq3ByteDistances, rq4NilableFields, rq5NilableGrammarValues, rq6TypedNilAccessors, rq7CtorNilContract, rq8NodeInfoGuards, rq10ConstIndexGuards, rq11ReaderPositionOwner, rq12RawRuneTokens},
 	})
 	register(&Property{
 		ID:          "C14",
